@@ -1,6 +1,6 @@
 """Engine E3: consumer groups -- ConsumerGroup/Generation life cycle (C15) and group Reader commits (C03);
 also the reader/group part of C09."""
-import json, os, random, re, time
+import json, os, random, re, time, threading
 from vlib import Inconclusive, read_ndjson, write_ndjson, split_traces
 
 ENGINE = "group"
@@ -237,6 +237,14 @@ def directed():
             out.append(dict(b0, id="D-leave-fails-%s-%d" % (mode_, code), drain=False, steps=[
                 {"op": "start", "m": 1, "fns": 1}, {"op": "sleep", "ms": 200}, {"op": "inject", "m": 1, "api": "leave", "nth": 0, "code": code},
                 {"op": "stop", "m": 1}, {"op": "sleep", "ms": 200}]))
+    # several synchronous commits are queued in the Reader while the first one is in flight on a slow coordinator; the generation is
+    # fenced (eviction / rebalance) and ends: the final flush of the queued requests is rejected, every caller must learn that
+    for k, fence in enumerate([[{"op": "evict", "m": 1}], [{"op": "rebalance"}], [{"op": "inject", "m": 1, "api": "heartbeat", "nth": 0, "code": 22}]]):
+        out.append(dict(rb, id="D-queued-commits-at-generation-end-%d" % k, topics={"t": 1}, records=12, drain=False, steps=[
+            {"op": "start", "m": 1}, {"op": "fetch", "m": 1, "n": 8, "commit": "none", "wait": True},
+            {"op": "hold", "gate": "coord:m1/offsetcommit"}, {"op": "commitburst", "m": 1, "n": 6}, {"op": "waitgate", "gate": "coord:m1/offsetcommit"},
+            {"op": "sleep", "ms": 30}] + fence + [{"op": "sleep", "ms": 250}, {"op": "release", "gate": "coord:m1/offsetcommit"},
+            {"op": "waitburst", "m": 1}, {"op": "sleep", "ms": 300}, {"op": "fetch", "m": 1, "n": 60, "commit": "sync", "wait": True}]))
     # crash-like: member evicted while it holds uncommitted messages, another member takes over
     out.append(dict(rb, id="D-evict", steps=[
         {"op": "start", "m": 1}, {"op": "fetch", "m": 1, "n": 4, "commit": "none", "wait": True}, {"op": "start", "m": 2}, {"op": "sleep", "ms": 250},
@@ -312,41 +320,63 @@ def tid_of(out):
 
 
 def monitor(ctx, scripts, traces, invs, maxviol=30):
+    """TLC evaluates the invariants on every trace.  The traces are judged in chunks of bounded size (several TLC runs in
+    parallel): after a violation only the rest of that chunk is read again."""
+    from concurrent.futures import ThreadPoolExecutor
     d = ctx.specdir(ENGINE)
     cfg = "GroupMon_%s.cfg" % ctx.prop
     with open(os.path.join(d, cfg), "w") as f:
         f.write("SPECIFICATION Spec\nINVARIANTS " + " ".join(invs) + "\nPOSTCONDITION TraceAccepted\nCHECK_DEADLOCK FALSE\n")
     byid = {s["id"]: s for s in scripts}
-    remaining = list(traces)
-    checked = nviol = 0
-    while remaining:
-        tf = os.path.join(ctx.work, "gmon-in.ndjson")
-        write_ndjson(tf, [e for t in remaining for e in t])
-        r = ctx.tlc(ENGINE, "GroupMon", cfg, workers=1, timeout=2400, env={"TRACE": tf})
-        if r["violated"]:
-            tid = tid_of(r["out"])
-            idx = next((i for i, t in enumerate(remaining) if t[0].get("id") == tid), None)
-            if idx is None:
-                raise Inconclusive("monitor reported %s but the trace could not be identified" % r["violated"])
-            bad = remaining[idx]
-            checked += idx + 1
-            rep = ctx.save_replay("%s-%s" % (tid, r["violated"]), [
-                ("script.json", json.dumps(byid.get(tid, {}))),
-                ("trace.ndjson", "\n".join(json.dumps(e) for e in bad) + "\n"),
-                ("tlc.txt", r["out"][-20000:])])
-            ctx.violation("%s violated on a trace of the real code (scenario %s)" % (r["violated"], tid), rep,
-                          key="%s scenario=%s" % (r["violated"], tid))
-            nviol += 1
-            remaining = remaining[idx + 1:]
-            if nviol >= maxviol:
-                ctx.notes.append("stopped after %d violations; %d traces not monitored" % (nviol, len(remaining)))
-                break
-            continue
-        if r["postcondition_failed"] or r["error"] or r["timeout"]:
-            raise Inconclusive("monitor run failed: " + (r["error"] or r["out"][-1500:]))
-        checked += len(remaining)
-        remaining = []
-    return checked
+    chunks, cur, n = [], [], 0
+    for t in sorted(traces, key=len):
+        if cur and n + len(t) > 12000:
+            chunks.append(cur)
+            cur, n = [], 0
+        cur.append(t)
+        n += len(t)
+    if cur:
+        chunks.append(cur)
+    lock = threading.Lock()
+    state = {"nviol": 0, "checked": 0}
+
+    def one(ci):
+        remaining = list(chunks[ci])
+        while remaining:
+            with lock:
+                if state["nviol"] >= maxviol:
+                    return
+            tf = os.path.join(ctx.work, "gmon-in-%d.ndjson" % ci)
+            write_ndjson(tf, [e for t in remaining for e in t])
+            r = ctx.tlc(ENGINE, "GroupMon", cfg, workers=1, timeout=2400, env={"TRACE": tf}, tag="gmon%d" % ci)
+            if r["violated"]:
+                tid = tid_of(r["out"])
+                idx = next((i for i, t in enumerate(remaining) if t[0].get("id") == tid), None)
+                if idx is None:
+                    raise Inconclusive("monitor reported %s but the trace could not be identified" % r["violated"])
+                bad = remaining[idx]
+                with lock:
+                    state["checked"] += idx + 1
+                    state["nviol"] += 1
+                    rep = ctx.save_replay("%s-%s" % (tid, r["violated"]), [
+                        ("script.json", json.dumps(byid.get(tid, {}))),
+                        ("trace.ndjson", "\n".join(json.dumps(e) for e in bad) + "\n"),
+                        ("tlc.txt", r["out"][-20000:])])
+                    ctx.violation("%s violated on a trace of the real code (scenario %s)" % (r["violated"], tid), rep,
+                                  key="%s scenario=%s" % (r["violated"], tid))
+                remaining = remaining[idx + 1:]
+                continue
+            if r["postcondition_failed"] or r["error"] or r["timeout"]:
+                raise Inconclusive("monitor run failed: " + (r["error"] or r["out"][-1500:]))
+            with lock:
+                state["checked"] += len(remaining)
+            remaining = []
+
+    with ThreadPoolExecutor(max_workers=4) as ex:
+        list(ex.map(one, range(len(chunks))))
+    if state["nviol"] >= maxviol:
+        ctx.notes.append("stopped after %d violations; some traces were not monitored" % state["nviol"])
+    return state["checked"]
 
 
 # actions of Group.tla (spec/group/Group.tla, Next) and the counters of GroupTrace.tla that stand for them
